@@ -12,6 +12,8 @@ TRUSTED_BASE = [
     'RunHandlers, handler.run, decorateHandlerPublisher, decorateHandlerSubscriber, addHandlerContext, handleMessage, publishProducedMessages) and router_context.go and tied to them by this check',
     'the subscriber environment is a scripted fan-out subscriber (every subscription of a topic on a subscriber object receives its own copy); middlewares and decorators are the harness\'s tagging wrappers '
     '(enter/exit marks, optional appended message; a publisher decorator calls its inner publisher even when that is a nil interface, as an embedding decorator does)',
+    'hook router.wiring.handler_removed (one added line after delete(r.handlers, name)) + hookrt park rule: used only to hold the teardown goroutine of a stopped handler while its name is re-added; '
+    'a rule that times out just means the window was not forced (counted in the evidence), never a verdict',
     'internal.StructName is exercised (Stringer and %T paths, empty names) but not modelled: type names enter the model as the strings the harness computed for its own collaborator types; '
     '"message.disabledPublisher" and "<nil>" are fixed constants of the model',
 ]
